@@ -225,7 +225,7 @@ theorem idatChunks_NP (crc : Bytes → Nat) (s : Bytes) :
     intro pos payload sizes
     unfold idatChunks
     refine NP_ite ?_ (NP_ok _)
-    exact NP_ite (NP_ok _) (NP_ite NP_err (NP_ite NP_err (ih _ _ _)))
+    exact NP_ite (NP_ok _) (NP_ite (NP_ok _) (NP_ite (NP_ok _) (ih _ _ _)))
 
 theorem parseIdat_NP (crc : Bytes → Nat) (s : Bytes) : SNP (parseIdat crc s) := by
   rw [parseIdat_eq]
